@@ -4,6 +4,7 @@ import LoraVerif.Lemmas.ExceptLemmas
 import LoraVerif.Props.C09
 import LoraVerif.Lemmas.Ghost
 import LoraVerif.Lemmas.MacWFStep
+import LoraVerif.Lemmas.RefineCalls
 /-!
 # C10 — receive windows follow the regional parameters in force when the uplink was sent
 
@@ -400,8 +401,135 @@ example : (run lcg (MacState.init (RegionState.init .EU868) 14 0, 1) demoHistory
     some ([[], [868300000, 868300000, 12, 869525000, 12], [868500000, 869525000, 12, 869525000, 12],
            [868300000, 869525000, 12, 869525000, 9]], 3000) := by decide +kernel
 
+/-! ## the device front-ends open the windows the MAC computed at TX time, for every script
+
+`Lemmas/RefineCalls.lean` reads the radio and timer calls of the async front-end model off ANY
+script: after the transmission the calls fall into an RX1 segment followed by an RX2 segment; every
+window set-up of a segment uses the configuration returned BY VALUE by `Mac::send` / `Mac::join_otaa`
+— which `send_windows` / `join_windows` identify as `WindowsOf` the state the frame was built in — and
+the board's window buffer; every timer is `delay + tx_ms − lead` for the RX1 / RX2 delay of that state,
+whatever is handled in between (Class C frames: MAC commands ignored; a frame in RX1 answered
+`NoUpdate`: nothing changes).  The non-blocking state machine keeps the windows in its state
+(`nb_windows`) and requests exactly them (`nb_rxRequest`). -/
+
+/-- **async `send`, every script, both classes**: the frame goes out with the TxConfig, and the
+windows are opened with the RX1 / RX2 configurations, of the channel and data rate actually used under
+the parameters of the state `send` met (`WindowsOf`); the timers are that state's RX1 delay (+ 1 s)
++ time on air − lead -/
+theorem async_send_windows {σ} (g : Rng σ) (cfg : DevCfg) (d : DevRun) (hwf : MacWF d.m) (data : List Nat) (port : Nat)
+    (conf : Bool) (rs : σ) (res : DevResult) (d' : DevRun) (rs' : σ)
+    (h : asyncSend g cfg d data port conf rs = .ok (res, d', rs')) :
+    (∃ m1 rs1, macSend g d.m data port conf rs = .ok (none, m1, rs1) ∧ d'.calls = d.calls) ∨
+    ∃ so m1 rs1 tx, macSend g d.m data port conf rs = .ok (some so, m1, rs1) ∧ WindowsOf d.m tx so.tx ∧
+      (d'.calls = Call.tx so.tx (frameLen so.frame) :: d.calls ∨
+       ∃ seg1 seg2, d'.calls = seg2 ++ seg1 ++ Call.reset :: Call.tx so.tx (frameLen so.frame) :: d.calls ∧
+         (∀ c ∈ seg1, WinCall cfg so.tx.rx1 (d.m.cfg.rx1Delay + cfg.txMs - cfg.lead) c) ∧
+         (∀ c ∈ seg2, WinCall cfg so.tx.rx2 (d.m.cfg.rx1Delay + 1000 + cfg.txMs - cfg.lead) c)) := by
+  rcases asyncSend_calls g cfg d data port conf rs res d' rs' h with hn | ⟨so, m1, rs1, hsend, hc⟩
+  · exact Or.inl hn
+  · obtain ⟨tx, hw, hd1, hd2⟩ := send_windows g d.m m1 hwf data port conf rs rs1 so hsend
+    refine Or.inr ⟨so, m1, rs1, tx, hsend, hw, ?_⟩
+    unfold SendCalls at hc
+    rw [hd1, hd2] at hc
+    exact hc
+
+/-- **async `join`**: the same with the join delays 5 s / 6 s -/
+theorem async_join_windows {σ} (g : Rng σ) (cfg : DevCfg) (d : DevRun) (hwf : MacWF d.m) (rs : σ)
+    (res : DevResult) (d' : DevRun) (rs' : σ) (h : asyncJoin g cfg d rs = .ok (res, d', rs')) :
+    ∃ jo m1 rs1 tx, macJoinOtaa g d.m rs = .ok (jo, m1, rs1) ∧ WindowsOf d.m tx jo.tx ∧
+      (d'.calls = Call.tx jo.tx 23 :: d.calls ∨
+       ∃ seg1 seg2, d'.calls = seg2 ++ seg1 ++ Call.reset :: Call.tx jo.tx 23 :: d.calls ∧
+         (∀ c ∈ seg1, WinCall cfg jo.tx.rx1 (5000 + cfg.txMs - cfg.lead) c) ∧
+         (∀ c ∈ seg2, WinCall cfg jo.tx.rx2 (6000 + cfg.txMs - cfg.lead) c)) := by
+  obtain ⟨jo, m1, rs1, hjoin, hc⟩ := asyncJoin_calls g cfg d rs res d' rs' h
+  obtain ⟨tx, hw, hd1, hd2⟩ := join_windows g d.m m1 hwf rs rs1 jo hjoin
+  refine ⟨jo, m1, rs1, tx, hjoin, hw, ?_⟩
+  unfold JoinCalls at hc
+  rw [hd1, hd2] at hc
+  exact hc
+
+/-- **non-blocking front-end**: while an exchange is in progress, the windows the state machine
+carries are `WindowsOf` the state in which the frame was built (`pre`, the history's state), and the
+delays it reads from the MAC are that state's -/
+theorem nb_windows {σ} (g : Rng σ) (pre : MacState × σ) (x : NbGhost) (r : NbRun) (rs : σ) (hwf : MacWF pre.1)
+    (hinv : NbInv g pre (some x) r rs) :
+    ∃ join tx txc, (r.st = .sendingData join tx ∨ (∃ second t, r.st = .waitingForRxWindow join tx second t) ∨
+        (∃ second t, r.st = .waitingForRx join tx second t)) ∧ WindowsOf pre.1 txc tx ∧
+      macRxDelay r.m join false = (if join then 5000 else pre.1.cfg.rx1Delay) ∧
+      macRxDelay r.m join true = (if join then 6000 else pre.1.cfg.rx1Delay + 1000) := by
+  have key : ∀ join tx, Started g pre x.kind join tx r.m rs →
+      ∃ txc, WindowsOf pre.1 txc tx ∧ macRxDelay r.m join false = (if join then 5000 else pre.1.cfg.rx1Delay) ∧
+        macRxDelay r.m join true = (if join then 6000 else pre.1.cfg.rx1Delay + 1000) := by
+    intro join tx hs
+    unfold Started at hs
+    cases hk : x.kind with
+    | some dpc =>
+      obtain ⟨dd, p, c⟩ := dpc
+      rw [hk] at hs
+      obtain ⟨rfl, o, hsend, rfl⟩ := hs
+      obtain ⟨txc, hw, h1, h2⟩ := send_windows g pre.1 r.m hwf dd p c pre.2 rs o hsend
+      exact ⟨txc, hw, by simpa using h1, by simpa using h2⟩
+    | none =>
+      rw [hk] at hs
+      obtain ⟨rfl, o, hjoin, rfl⟩ := hs
+      obtain ⟨txc, hw, h1, h2⟩ := join_windows g pre.1 r.m hwf pre.2 rs o hjoin
+      exact ⟨txc, hw, by simpa using h1, by simpa using h2⟩
+  unfold NbInv at hinv
+  cases hst : r.st with
+  | idle => rw [hst] at hinv; cases hinv.1
+  | sendingData join tx =>
+    rw [hst] at hinv
+    obtain ⟨⟨k, a, c, e, hs, _⟩, _⟩ := hinv
+    cases e
+    obtain ⟨txc, h1, h2, h3⟩ := key join tx hs
+    exact ⟨join, tx, txc, Or.inl rfl, h1, h2, h3⟩
+  | waitingForRxWindow join tx second t =>
+    rw [hst] at hinv
+    obtain ⟨k, a, c, e, hs, _⟩ := hinv
+    cases e
+    obtain ⟨txc, h1, h2, h3⟩ := key join tx hs
+    exact ⟨join, tx, txc, Or.inr (Or.inl ⟨second, t, rfl⟩), h1, h2, h3⟩
+  | waitingForRx join tx second t =>
+    rw [hst] at hinv
+    obtain ⟨k, a, c, e, hs, _⟩ := hinv
+    cases e
+    obtain ⟨txc, h1, h2, h3⟩ := key join tx hs
+    exact ⟨join, tx, txc, Or.inr (Or.inr ⟨second, t, rfl⟩), h1, h2, h3⟩
+
+/-- … and at the window's time it requests exactly that window from the radio: RX1 first, then RX2 -/
+theorem nb_rxRequest {σ} (g : Rng σ) (cfg : NbCfg) (r : NbRun) (rs : σ) (items : List NbItem) (join : Bool) (tx : TxOut)
+    (second : Bool) (t : Nat) (hst : r.st = .waitingForRxWindow join tx second t) (resp : NbResp) (r' : NbRun) (rs' : σ)
+    (h : nbEvent g cfg r rs .timeout items = .ok (resp, r', rs')) :
+    r'.calls = NbCall.rxRequest (if second then tx.rx2 else tx.rx1) :: r.calls := by
+  unfold nbEvent nbStep at h
+  simp only [hst, next_eq] at h
+  cases hit : headItem items <;> simp only [hit] at h
+  · obtain ⟨close, _, h⟩ := Except.bind_eq_ok h
+    simp only [pure, Except.pure, Except.ok.injEq, Prod.mk.injEq] at h
+    obtain ⟨_, rfl, _⟩ := h; rfl
+  · simp only [pure, Except.pure, Except.ok.injEq, Prod.mk.injEq] at h
+    obtain ⟨_, rfl, _⟩ := h; rfl
+  · obtain ⟨close, _, h⟩ := Except.bind_eq_ok h
+    simp only [pure, Except.pure, Except.ok.injEq, Prod.mk.injEq] at h
+    obtain ⟨_, rfl, _⟩ := h; rfl
+  · obtain ⟨close, _, h⟩ := Except.bind_eq_ok h
+    simp only [pure, Except.pure, Except.ok.injEq, Prod.mk.injEq] at h
+    obtain ⟨_, rfl, _⟩ := h; rfl
+
+/-- the hypotheses are satisfiable: a Class C `send` whose RX1 set-up is EU868 868.1–868.5 MHz at the
+uplink's rate, RX2 869.525 MHz, timers 1000 + 57 − 15 and 2000 + 57 − 15 -/
+example : (asyncSend (fun (x : Nat) => (x, x + 1)) { lead := 15, buffer := 40, classC := false, txMs := 57 }
+      { m := macJoinAbp (MacState.init (RegionState.init .EU868) 14 0) 7 1 2, script := [], calls := [], downlinks := [] }
+      [1] 1 false 1).toOption.map (fun r => r.2.1.calls.filterMap (fun c => match c with | .at t => some t | _ => none)) =
+    some [2042, 1042] := by decide +kernel
+
+
 end C10
 
+#print axioms C10.async_send_windows
+#print axioms C10.async_join_windows
+#print axioms C10.nb_windows
+#print axioms C10.nb_rxRequest
 #print axioms C10.rx1_eu868
 #print axioms C10.rx1_eu433
 #print axioms C10.rx1_us915
